@@ -29,14 +29,18 @@ FORMATS = {
 }
 SETS = {
     "plain": [(S, 2 * S, ["hello"]), (3 * S + 40000, 4 * S + 520000, ["two", "lines"]), (3600 * S, 3601 * S + 80000, ["bye"])],
-    "metacharacters": [(S, 2 * S, ["a & b < c > d"]), (5 * S, 6 * S, ["\"quoted\" it's 100%"]), (7 * S, 8 * S, ["é ü 漢"])],
+    "metacharacters": [(S, 2 * S, ["a & b < c > d"]), (5 * S, 6 * S, ["\"quoted\" it's 100%"]), (7 * S, 8 * S, ["é ü 漢"]),
+                       (9 * S, 10 * S, ["C:\\new\\table {y:i} 50% {1}{2}"])],
     "touching cues": [(0, S, ["first"]), (S, 2 * S, ["second", "line 2", "line 3"]), (2 * S, 2 * S + 40000, ["third"])],
     # empty lines: two and three consecutive breaks, and two breaks separated by a style node that has no tag of its own
     "empty lines": [(S, 2 * S, ["one", "", "two"]), (3 * S, 4 * S, ["top", "", "", "bottom"]),
                     (5 * S, 6 * S, ["first", ("style", True, {"color": "red"}), "", "second", ("style", False, {"color": "red"})]),
                     (7 * S, 8 * S, ["last"])],
     "italics": [(S, 2 * S, [("style", True, {"italics": True}), "slanted", ("style", False, {"italics": True}), " plain"]),
-                (3 * S, 4 * S, ["after"])],
+                (3 * S, 4 * S, ["after"]),
+                # the only blank between a styled run and what follows is the one that ends the run
+                (5 * S, 6 * S, [("style", True, {"italics": True}), "Narrator: ", ("style", False, {"italics": True}),
+                                ("same-line", "it was a dark night.")])],
     # two text nodes of one line with different layouts (WebVTT writes them as two timing blocks of one cue)
     "layout groups": [(S, 2 * S, [("layout", (10, 10, "LEFT")), "speaker on the left ", ("layout", (60, 10, "RIGHT")), ("same-line", "speaker on the right")]),
                       (3 * S, 4 * S, ["after"])],
